@@ -52,7 +52,7 @@ def _hash_noise(n, seed):
 
 @st.composite
 def value_specs(draw, n, allow_list=True):
-    if allow_list and n <= 40 and draw(st.integers(0, 2)) > 0:
+    if allow_list and n <= 24 and draw(st.integers(0, 2)) > 0:
         return dict(mode="list", v=draw(gens.sample_values(n)),
                     scale=draw(st.sampled_from([1.0, 1.0, 1e-6, 1e6])))
     imp = []
@@ -847,7 +847,9 @@ def check_passive(case, rec):
     y = apply_filter(kind, times, x, [(fn, fr)])
     e_out = float(np.dot(y / unit, y / unit))
     # 1e-12: Parseval holds to c*eps*log2(2N) ~ 1e-14 for the FFT pair
-    require(e_out <= e_in * (1 + 1e-12),
+    # samples in the subnormal range (< 2.2e-308) are only accurate to ~1e-322 absolutely
+    slack = 4 * math.sqrt(e_in * n) * (1e-322 / unit)
+    require(e_out <= e_in * (1 + 1e-12) + slack,
             "a response of magnitude <= 1 (max %.17g) increased the energy (units of max|x|^2): %.17g -> %.17g "
             "(n=%d force_real=%r kind=%s response %r)", hmax, e_in, e_out, n, fr, kind, case["resp"])
     classes = _grid_classes(n) + _resp_classes(case["resp"], fr) + ["kind=" + kind]
@@ -864,7 +866,7 @@ def check_passive(case, rec):
         _, fq = build_response(spec, n, case["grid"]["dt"])
         yq = apply_filter(kind, times, x, [(fq, fr)])
         e_q = float(np.dot(yq / unit, yq / unit))
-        require(abs(e_q - q * q * e_in) <= 1e-12 * q * q * e_in,
+        require(abs(e_q - q * q * e_in) <= 1e-12 * q * q * e_in + q * q * slack,
                 "flat gain %r: energy %.17g, expected %.17g", q, e_q, q * q * e_in)
         classes.append("flat_gain")
     nt = n >= 3 and _nonconstant(x) and _nonconstant(h_vec(f)) and hmax > 0.5
@@ -1038,7 +1040,7 @@ def function_cases(draw):
     m = nb + n + na
     n_filters = draw(st.sampled_from([1, 2, 2, 3]))
     resps = [draw(response_specs(m)) for _ in range(n_filters)]
-    return dict(grid=g, nb=nb, na=na, values=draw(value_specs(m, allow_list=m <= 40)), resps=resps,
+    return dict(grid=g, nb=nb, na=na, values=draw(value_specs(m, allow_list=m <= 24)), resps=resps,
                 force_real=draw(st.booleans()), set_before=draw(st.booleans()))
 
 
@@ -1107,51 +1109,51 @@ _GRID_FLOORS = {"odd_n": 0.18, "n>=1024": 0.065}
 PROPERTY = Property(
     "C05", "Frequency filtering is linear, real-preserving, passive and free of wrap-around",
     [
-        SubCheck("linear_signal", linear_cases(), check_linear, quick=1600, thorough=80000,
+        SubCheck("linear_signal", linear_cases(), check_linear, quick=1200, thorough=60000,
                  rule="grid (n 2..4096, dt 1e-10..1 s, offsets) x two value vectors x real a,b x response "
                       "(9 families, complex gain, Hermitian/even/positive-only/junk negative side, vectorised or "
                       "scalar-only) x force_real x Signal/FunctionSignal/sum of FunctionSignals; non-trivial = "
                       "n>=3, a,b != 0, linearly independent non-constant signals, non-constant response",
                  floors=dict(_GRID_FLOORS, scalar_only=0.18, force_real=0.17, **{"kind=function_sum": 0.1})),
-        SubCheck("homogeneous_response", homogeneous_cases(), check_homogeneous, quick=1400, thorough=70000,
+        SubCheck("homogeneous_response", homogeneous_cases(), check_homogeneous, quick=1000, thorough=50000,
                  rule="grid x values x response x real factor c (both signs, 1e-3..1e3, 0); non-trivial = n>=3, "
                       "c not in {0,1}, non-constant signal and response",
                  floors=dict(_GRID_FLOORS, scalar_only=0.2, **{"c<0": 0.2})),
-        SubCheck("identity", identity_cases(), check_identity, quick=1400, thorough=70000,
+        SubCheck("identity", identity_cases(), check_identity, quick=1000, thorough=50000,
                  rule="grid x values (float or int) x unit response in 5 spellings (constant, zero delay, zero "
                       "chirp, table of ones, all-pass brick), vectorised or scalar-only, positive-only when "
                       "force_real; non-trivial = n>=3 and non-constant signal",
                  floors=dict(_GRID_FLOORS, scalar_only=0.28, int_values=0.12, force_real=0.2)),
-        SubCheck("grid_offset", offset_cases(), check_offset, quick=1400, thorough=70000,
+        SubCheck("grid_offset", offset_cases(), check_offset, quick=1000, thorough=50000,
                  rule="two positions of one grid (dyadic: bit-identical outputs; generic: within the effect of "
                       "the rounding of the step), second position by construction or by shift(); non-trivial = "
                       "n>=3, non-constant signal and response",
                  floors=dict(_GRID_FLOORS, dyadic=0.23, generic=0.25, via_shift=0.18)),
-        SubCheck("force_real", reference_cases(), check_force_real, quick=2000, thorough=100000,
+        SubCheck("force_real", reference_cases(), check_force_real, quick=1600, thorough=80000,
                  rule="grid x values x response with force_real=True against irfft(H(f>=0) * rfft(padded)) and, "
                       "for n<=24, a direct cosine sum; non-trivial = n>=3, non-constant signal and response",
                  floors=dict(_GRID_FLOORS, scalar_only=0.2, complex_at_nyquist=0.18, complex_at_dc=0.1, direct_sum=0.2,
-                             **{"neg=junk": 0.08, "neg=zero": 0.08})),
-        SubCheck("signed_response", reference_cases(), check_signed, quick=1600, thorough=80000,
+                             **{"neg=junk": 0.055, "neg=zero": 0.055})),
+        SubCheck("signed_response", reference_cases(), check_signed, quick=1200, thorough=60000,
                  rule="grid x values x response with force_real=False against the Hermitian part of the response "
                       "on signed frequencies (either sign at the Nyquist bin); non-trivial = n>=3, non-constant "
                       "signal and response",
                  floors=dict(_GRID_FLOORS, scalar_only=0.2, not_hermitian=0.2)),
-        SubCheck("scalar_twin", twin_cases(), check_twin, quick=1000, thorough=50000,
+        SubCheck("scalar_twin", twin_cases(), check_twin, quick=800, thorough=40000,
                  rule="one response as vectorised function, as math.*-based scalar function (TypeError on arrays) "
                       "and as branching scalar function (ValueError on arrays): same output; non-trivial = n>=3, "
                       "non-constant signal and response",
                  floors=dict(_GRID_FLOORS, force_real=0.17)),
-        SubCheck("constant_response", constant_cases(), check_constant, quick=600, thorough=30000,
+        SubCheck("constant_response", constant_cases(), check_constant, quick=480, thorough=24000,
                  rule="response functions that return one constant (int/float, complex, numpy scalar, 0-d array) "
                       "whatever they are given; non-trivial = n>=3 and non-constant signal",
                  floors={"attempt_force_real": 0.2, "unit": 0.3}, classify=classify_constant),
-        SubCheck("passive", passive_cases(), check_passive, quick=1600, thorough=80000,
+        SubCheck("passive", passive_cases(), check_passive, quick=1200, thorough=60000,
                  rule="grid x values x response with max|H|<=1 by construction (checked) x force_real; energy "
                       "never grows; flat gain q gives q^2 (other direction); non-trivial = n>=3, non-constant "
                       "signal, non-constant response with max|H|>0.5",
                  floors=dict(_GRID_FLOORS, scalar_only=0.2, keeps_most_energy=0.08, flat_gain=0.2, force_real=0.18)),
-        SubCheck("delay", delay_cases(), check_delay, quick=2000, thorough=100000,
+        SubCheck("delay", delay_cases(), check_delay, quick=1600, thorough=80000,
                  rule="whole-sample delays 0..N and advances -N..-1 written as exp(-2 pi i f k dt): samples move, "
                       "zeros come in, nothing wraps; fractional delays of a band-limited Gaussian pulse against "
                       "the analytic pulse; non-trivial = n>=3, k != 0 and a non-zero sample leaves the window, or "
@@ -1159,7 +1161,7 @@ PROPERTY = Property(
                  floors=dict(_GRID_FLOORS, k_near_N=0.17, k_near_0=0.13, advance=0.12, pulse=0.06,
                              pulse_leaves_window=0.02, pulse_cut_by_edge=0.015, rounded_step=0.07,
                              samples_leave_window=0.3, scalar_only=0.15, force_real=0.2)),
-        SubCheck("function_signal", function_cases(), check_function, quick=1200, thorough=60000,
+        SubCheck("function_signal", function_cases(), check_function, quick=1000, thorough=50000,
                  rule="FunctionSignal with leading/trailing buffers of whole samples and 1-3 filters against the "
                       "product response applied once to the buffered samples; non-trivial = n>=3 and (several "
                       "filters or buffers that change the result)",
